@@ -99,7 +99,12 @@ def splice(repo, scratch, kind='kani'):
         if os.path.exists(os.path.join(repo, 'tests')):
             raise SpliceError('repository has a tests/ directory: process-level replay file would mix with it')
         os.makedirs(os.path.join(scratch, 'tests'))
-        shutil.copy(os.path.join(HERE, 'replay', 'bin_replay.rs'), os.path.join(scratch, 'tests', 'verif_replay_bin.rs'))
+        bt = open(os.path.join(HERE, 'replay', 'bin_replay.rs')).read()
+        br = open(os.path.join(HERE, 'replay', 'board_replay.rs')).read()
+        i0 = br.index('mod refrules {')
+        i1 = br.index('\nfn ref_kind(')
+        bt = bt.replace('//@REFRULES', '#[allow(dead_code)]\n' + br[i0:i1])   # the same reference rules engine, textually
+        open(os.path.join(scratch, 'tests', 'verif_replay_bin.rs'), 'w').write(bt)
     # ---- demonstrate that nothing else differs
     for root, _, files in os.walk(os.path.join(scratch, 'src')):
         for fn in files:
